@@ -7,5 +7,6 @@ CONSTANTS
   Eager = FALSE
   Strict = FALSE
   Mut = "none"
-SPECIFICATION Spec
+SPECIFICATION FairSpec
 INVARIANTS TypeOK NoErr ExactlyOnce Covered
+PROPERTIES Woken Served
